@@ -165,6 +165,29 @@ class Check:
             self.cov['actions_never_taken'] += never
         return r
 
+    def tlc_witness(self, family, module, base_cfg, inv, overrides=None, workers=4, timeout=600):
+        """Asks TLC for a shortest behaviour reaching a scenario: `inv` is the pseudo-invariant "the scenario never
+        happens"; its counterexample (parsed from the error trace) is returned as a list of states, or None when the
+        scenario is unreachable in this configuration. overrides: {constant: replacement} lines (`C <- Def`)."""
+        d = self._specdir(family)
+        txt = open(os.path.join(d, base_cfg)).read()
+        txt = re.sub(r'^(INVARIANTS?|PROPERTIES|PROPERTY|VIEW|CONSTRAINT|POSTCONDITION)\b.*$', '', txt, flags=re.M)
+        for k, v in (overrides or {}).items():
+            txt = re.sub(r'^\s*%s\s*(=|<-).*$' % re.escape(k), '  %s <- %s' % (k, v), txt, flags=re.M)
+        cfg = 'wit_%s.cfg' % inv
+        with open(os.path.join(d, cfg), 'w') as fh:
+            fh.write(txt + '\nINVARIANT %s\n' % inv)
+        r = self.tlc(family, module, cfg, workers=workers, timeout=timeout, expect_violation=True)
+        if r['ok']:
+            return None
+        if not r['error'] or 'Invariant %s is violated' % inv not in r['out']:
+            raise Inconclusive('witness search %s failed: %s\n%s' % (inv, r['error'], r['out'][-2000:]))
+        trace = r['out'][r['out'].index('Invariant %s is violated' % inv):]
+        m = re.search(r'^\d+ states generated', trace, re.M)
+        if m:
+            trace = trace[:m.start()]
+        return tlaparse.parse_states_file(trace)
+
     def behaviours(self, res, strip=True):
         """Parses the behaviour files of a -simulate run into lists of state dicts."""
         out = []
